@@ -201,6 +201,14 @@ def run(ctx) -> None:  # noqa: C901
                 want = want if lsb else list(reversed(want))
                 if h.hex_to_flag8(h.hex_from_flag8(want, lsb=lsb), lsb=lsb) != want:
                     ctx.violate("C04|hex_flag8|bits-not-reproduced", "bit list round trip", want)
+                # the decoded value belongs to the caller: what one holder does with it (a parser's
+                # payload is handed to applications) must not change what the same byte decodes to next
+                snapshot = list(bits)
+                for i in range(len(bits)):
+                    bits[i] ^= 1
+                again = h.hex_to_flag8(byte, lsb=lsb)
+                if again != snapshot:
+                    ctx.violate("C04|hex_flag8|decode-depends-on-earlier-result", "the same flag byte decodes differently after an earlier result was modified by its holder", {"byte": byte, "lsb": lsb, "first": snapshot, "second": again})
         for v in (True, False, None):
             ctx.ev()
             ctx.seen(f"bool.{v}")
